@@ -178,6 +178,7 @@ def main(prop_id, tier, seed, replay=None):
     evaluations = 0
     nontrivial = set()
     samples = []
+    sample_lists = []
     counters = {}
     distincts = {}
     violations = []
@@ -189,9 +190,7 @@ def main(prop_id, tier, seed, replay=None):
             continue
         evaluations += res['evaluations']
         nontrivial.update(res['nontrivial'])
-        for s in res['samples']:
-            if len(samples) < 6:
-                samples.append(s)
+        sample_lists.append((spec.get('kind', ''), res['samples']))
         for k, v in res['counters'].items():
             counters[k] = counters.get(k, 0) + v
         for k, v in res['distincts'].items():
@@ -202,6 +201,17 @@ def main(prop_id, tier, seed, replay=None):
             violations.append(v)
         inconclusive.extend(res['inconclusive'])
         notes.extend(res['notes'])
+
+    # samples: one per kind of shard first, then fill up
+    seen_kinds = set()
+    for kind, lst in sample_lists:
+        if lst and kind not in seen_kinds and len(samples) < 8:
+            seen_kinds.add(kind)
+            samples.append(lst[0])
+    for kind, lst in sample_lists:
+        for x in lst[1:]:
+            if len(samples) < 8:
+                samples.append(x)
 
     # requirements: the deciding monitors must actually have observed something
     require = getattr(mod, 'REQUIRE', {})
